@@ -1,10 +1,11 @@
 (** source tie for C12: the constants of ecdsa.hashBlind as they stand in the Go source (Gen/Src.v, regenerated on every
-    run) are the ones Model/Derive.v uses. *)
+    run) are the ones Model/Derive.v uses. [tie s P] holds vacuously when the literal is no longer at its place. *)
 From Coq Require Import List NArith.
 From PatVerif Require Import Base.Bytes Model.Derive Gen.Src.
 Import ListNotations.
-Example tie_dst : map n2b s_ecdsa_dst = dst_ecdsa_key_blind. Proof. reflexivity. Qed.
-Example tie_L : s_ecdsa_L = map (fun c => N.of_nat (curve_L c)) [1; 2; 3; 4]%N. Proof. reflexivity. Qed.
-Example tie_curves : s_ecdsa_curves = [[80; 45; 50; 50; 52]; [80; 45; 50; 53; 54]; [80; 45; 51; 56; 52]; [80; 45; 53; 50; 49]]%N.  (* P-224, P-256, P-384, P-521: curve ids 1..4 *)
-Proof. reflexivity. Qed.
-Example tie_sep : [n2b s_ecdsa_sep] = [x00]. Proof. reflexivity. Qed.
+Ltac t := vm_compute; first [reflexivity | exact I | repeat split; reflexivity].
+Example tie_dst : tie s_ecdsa_dst (fun v => map n2b v = dst_ecdsa_key_blind). Proof. t. Qed.
+Example tie_L : tie s_ecdsa_L (fun v => v = map (fun c => N.of_nat (curve_L c)) [1; 2; 3; 4]%N). Proof. t. Qed.
+Example tie_curves : tie s_ecdsa_curves (fun v => v = [[80; 45; 50; 50; 52]; [80; 45; 50; 53; 54]; [80; 45; 51; 56; 52]; [80; 45; 53; 50; 49]]%N).  (* P-224, P-256, P-384, P-521: curve ids 1..4 *)
+Proof. t. Qed.
+Example tie_sep : tie s_ecdsa_sep (fun v => [n2b v] = [x00]). Proof. t. Qed.
